@@ -321,3 +321,29 @@ func VerifC13_WideNested() {
 	verifSameNames(w.names, files)
 	vCover("archive-validated")
 }
+
+// VerifC13_SpecialModes: entries that carry set-uid / set-gid / sticky bits (a sticky directory
+// like /tmp, a set-gid directory like /var/mail, a set-uid file): the entry's st_mode keeps the
+// node's type, so the elements that follow it are the ones casync expects for that type.
+func VerifC13_SpecialModes() {
+	bits := []os.FileMode{0, os.ModeSticky, os.ModeSetgid, os.ModeSetuid, os.ModeSetgid | os.ModeSticky}
+	rootBits := bits[vChoose("root-bits", len(bits))]
+	dirBits := bits[vChoose("dir-bits", len(bits))]
+	fileBits := bits[vChoose("file-bits", len(bits))]
+	mt := time.Unix(0, vI64("mtime"))
+	files := []*File{
+		{Name: ".", Path: ".", Mode: os.ModeDir | 0777 | rootBits, ModTime: mt},
+		{Name: "d", Path: "d", Mode: os.ModeDir | 0775 | dirBits, ModTime: mt},
+		{Name: "x", Path: "d/x", Mode: 0755 | fileBits, Size: 1, ModTime: mt, Data: io.NopCloser(bytes.NewReader(vBytes("content", 1)))},
+		{Name: "l", Path: "l", Mode: os.ModeSymlink | 0777, ModTime: mt, LinkTarget: "d"},
+		{Name: "n", Path: "n", Mode: os.ModeDevice | os.ModeCharDevice | 0600 | fileBits, ModTime: mt, DevMajor: 1, DevMinor: 3},
+	}
+	var buf bytes.Buffer
+	err := Tar(context.Background(), &buf, &verifTreeReader{files: files})
+	vAssert(err == nil, "Tar failed")
+	w := &verifArchWalker{b: buf.Bytes()}
+	w.node(0)
+	vAssert(w.pos == len(w.b), "bytes left over after the root directory's goodbye table")
+	verifSameNames(w.names, files)
+	vCover("archive-validated")
+}
